@@ -1,6 +1,6 @@
 #!/bin/sh
 # usage: tools/run_all.sh [tier] -- runs every registered check once (sequentially), prints one line each
-cd /verif
+cd "$(dirname "$0")/.."
 TIER=${1:-quick}
 for i in 01 02 03 04 05 06 07 08 09 10 11 12 13 14 15 16 17 18 19 20; do
   s=$(date +%s); out=$(./check C$i --tier $TIER 2>&1); rc=$?; e=$(date +%s)
